@@ -43,7 +43,8 @@ def generate(tape, tier="quick"):
     gridded = tape.chance(1, 2)
     g = gen_structured(tape, max_dim=2, max_len=4) if gridded else None
     ngdim = tape.choice([1, 1, 2]) if (not gridded and tape.chance(1, 3)) else 0
-    group = ["K", "degC"] if tape.chance(1, 4) else ["m", "km", "mm"]      # offset units / multiplicative units
+    # offset units / multiplicative units / dimensionless but scaled units
+    group = tape.weighted([(["m", "km", "mm"], 5), (["K", "degC"], 2), (["1", "percent", "ppm"], 1)])
     su = tape.choice(group)
     n_cons = tape.weighted([(1, 3), (2, 2)])
     cons = [{"units": tape.choice([None] + group), "grid": tape.choice(["same", "unset"]),
